@@ -193,6 +193,24 @@ func propC16Dense(t *rapid.T) {
 	if g := b.DenseSize(); g != wantWords {
 		t.Fatalf("DenseSize=%d want %d [%s]", g, wantWords, desc)
 	}
+	// DenseSize over the whole key space (no vector is materialized here)
+	{
+		anyKeys := gen.Bitmap(t, "any", gen.KindsValid, false)
+		av := mustMake(t, anyKeys, live.DrawForm(t, "anyform"))
+		if rapid.IntRange(0, 3).Draw(t, "top") == 0 {
+			top := rapid.SampledFrom([]uint32{0xFFFFFFFF, 0xFFFFFFFE, 0xFFFFFFC0, 0xFFFFFFBF, 0xFFFF0000}).Draw(t, "topv")
+			av.B.Add(top)
+			av.Model.Add(uint64(top))
+		}
+		var w uint64
+		if !av.Model.IsEmpty() {
+			w = (av.Model.Max() + 64) / 64
+		}
+		if g := av.B.DenseSize(); g != w {
+			t.Fatalf("DenseSize=%d want %d for a bitmap with maximum %d [%s]", g, w, av.Model.Max(), anyKeys)
+		}
+		runtime.KeepAlive(av)
+	}
 	dense := b.ToDense()
 	if uint64(len(dense)) != wantWords {
 		t.Fatalf("len(ToDense)=%d want %d [%s]", len(dense), wantWords, desc)
@@ -312,3 +330,19 @@ func propC16Dense(t *rapid.T) {
 func TestC16Offset(t *testing.T) { rapid.Check(t, propC16Offset) }
 func TestC16Flip(t *testing.T)   { rapid.Check(t, propC16Flip) }
 func TestC16Dense(t *testing.T)  { rapid.Check(t, propC16Dense) }
+
+// TestRegressC16DenseTop: the one bitmap whose dense form needs all 2^26 words (maximum 2^32-1).
+func TestRegressC16DenseTop(t *testing.T) {
+	b := roaring.BitmapOf(7, 1<<31, 0xFFFFFFFF)
+	if g := b.DenseSize(); g != 1<<26 {
+		t.Fatalf("DenseSize with maximum 0xFFFFFFFF = %d, want %d", g, 1<<26)
+	}
+	d := b.ToDense()
+	if len(d) != 1<<26 || d[0] != 1<<7 || d[1<<25] != 1 || d[1<<26-1] != 1<<63 {
+		t.Fatalf("ToDense with maximum 0xFFFFFFFF: %d words", len(d))
+	}
+	back := roaring.FromDense(d, false)
+	if !back.Equals(b) {
+		t.Fatalf("FromDense(ToDense(b)) differs for maximum 0xFFFFFFFF: %v", back.ToArray())
+	}
+}
